@@ -471,7 +471,7 @@ class Catalogue:
         # ---- exact integers: fixnum/bignum border, wide values, values that must normalise back to a fixnum
         ints = [0, 1, -1, 5, 255, 2 ** 30, 2 ** 61, FIX_MAX, FIX_MAX + 1, FIX_MIN, FIX_MIN - 1, 2 ** 63, 2 ** 64 - 1, 2 ** 64,
                 2 ** 70, 2 ** 70 + 1, -(2 ** 70), 2 ** 128, 2 ** 128 - 1, 10 ** 30, -(10 ** 30), 3 ** 100, 2 ** 200 + 2 ** 70]
-        for _ in range(6 if self.thorough else 3):
+        for _ in range(12 if self.thorough else 3):
             ints.append(rng.getrandbits(rng.choice((66, 90, 127, 190, 260))) * rng.choice((1, -1)) or 7)
         its = [I(n) for n in ints]
         for a, b in ((2 ** 70, 2 ** 70 + 1), (2 ** 70, -(2 ** 70)), (FIX_MAX, FIX_MAX + 1), (FIX_MIN, FIX_MIN - 1), (2 ** 64, 2 ** 64 - 1),
